@@ -144,6 +144,13 @@ def make_constraint(c, h):
         obj = ps.TaskPrecedence(
             task_before=T[c["before"]], task_after=T[c["after"]], offset=c["offset"], kind=c["kind"], **kw
         )
+    elif t == "GroupPrecedence":
+        # a TaskPrecedence whose operands are task groups (declared earlier) and / or tasks
+        obj = ps.TaskPrecedence(
+            task_before=h.constraints[c["gbefore"]] if c.get("gbefore") else T[c["before"]],
+            task_after=h.constraints[c["gafter"]] if c.get("gafter") else T[c["after"]],
+            offset=c["offset"], kind=c["kind"], **kw
+        )
     elif t in ("TasksStartSynced", "TasksEndSynced", "TasksDontOverlap"):
         obj = getattr(ps, t)(task_1=T[c["t1"]], task_2=T[c["t2"]], **kw)
     elif t == "TasksContiguous":
